@@ -320,6 +320,11 @@ pub enum Dev {
     /// claimed evaluation `+1` before it is observed (alpha, the reduced openings and the whole
     /// FRI proof are derived from the wrong claim)
     OpenedValue { round: usize, mat: usize, point: usize, col: usize },
+    /// claimed evaluation `+1` before it is observed (alpha is derived from the wrong claim) but
+    /// the reduced openings and the FRI proof are computed from the TRUE evaluations: the only
+    /// thing wrong is the claim itself. For a matrix of LDE height `2^log_blowup` (constant
+    /// polynomial) nothing but the verifier's "reduced opening must vanish" check sees it.
+    ClaimOnly { round: usize, mat: usize, point: usize, col: usize },
     /// foreign folding schedule: commit phase `layer` folds with `log_arity` (≤ max_log_arity,
     /// ≠ the honest prover's choice); a smaller arity gives another valid schedule, a larger one
     /// jumps over an input height whose reduced opening is then never rolled in (dropped by this
@@ -337,6 +342,7 @@ impl Dev {
             Dev::CommitPow { .. } => "mal:commit_pow".into(),
             Dev::QueryPow => "mal:query_pow".into(),
             Dev::OpenedValue { point, .. } => format!("mal:opened_value/point{point}"),
+            Dev::ClaimOnly { point, .. } => format!("mal:claim_only/point{point}"),
             Dev::Arity { skips_zero: true, .. } => "mal:arity_jumps_over_zero_rollin".into(),
             Dev::Arity { .. } => "mal:arity".into(),
         }
@@ -352,6 +358,7 @@ impl Dev {
             Dev::CommitPow { phase } => json!({"commit_pow": phase}),
             Dev::QueryPow => json!({"query_pow": true}),
             Dev::OpenedValue { round, mat, point, col } => json!({"opened_value": [round, mat, point, col]}),
+            Dev::ClaimOnly { round, mat, point, col } => json!({"claim_only": [round, mat, point, col]}),
             Dev::Arity { layer, log_arity, skips_zero } => json!({"arity": [layer, log_arity, *skips_zero as usize]}),
         }
     }
@@ -374,6 +381,9 @@ impl Dev {
         }
         if let Some(a) = v.get("opened_value") {
             return Some(Dev::OpenedValue { round: g(a, 0)?, mat: g(a, 1)?, point: g(a, 2)?, col: g(a, 3)? });
+        }
+        if let Some(a) = v.get("claim_only") {
+            return Some(Dev::ClaimOnly { round: g(a, 0)?, mat: g(a, 1)?, point: g(a, 2)?, col: g(a, 3)? });
         }
         if let Some(a) = v.get("arity") {
             return Some(Dev::Arity { layer: g(a, 0)?, log_arity: g(a, 1)?, skips_zero: g(a, 2)? != 0 });
@@ -451,7 +461,7 @@ pub fn mal_open(
 ) -> Result<(Opened, FriProofT), String> {
     let mut ch = cm.challenger.clone();
     let mut opened = honest_opened.clone();
-    if let Dev::OpenedValue { round, mat, point, col } = dev {
+    if let Dev::OpenedValue { round, mat, point, col } | Dev::ClaimOnly { round, mat, point, col } = dev {
         let slot = opened
             .get_mut(*round)
             .and_then(|r| r.get_mut(*mat))
@@ -468,7 +478,8 @@ pub fn mal_open(
         }
     }
     let alpha: Challenge = ch.sample_algebra_element();
-    let codewords = reduced_codewords(su, shape, cm, &opened, alpha);
+    // `ClaimOnly`: the prover keeps folding the true reduced openings
+    let codewords = reduced_codewords(su, shape, cm, if matches!(dev, Dev::ClaimOnly { .. }) { honest_opened } else { &opened }, alpha);
     let inputs: Vec<Vec<Challenge>> = codewords.into_iter().rev().map(|(_, v)| v).collect();
     let log_global_max_height = log2_strict_usize(inputs[0].len());
     let params = &su.fri;
@@ -486,7 +497,7 @@ pub fn mal_open(
     let mut log_arities = vec![];
     let mut pow_witnesses = vec![];
     let log_final_height = params.log_blowup + params.log_final_poly_len;
-    let mut applied = matches!(dev, Dev::None | Dev::OpenedValue { .. });
+    let mut applied = matches!(dev, Dev::None | Dev::OpenedValue { .. } | Dev::ClaimOnly { .. });
     while folded.len() > params.blowup() * params.final_poly_len() {
         let layer = commits.len();
         if let Dev::Codeword { layer: l, pos } = dev {
@@ -662,6 +673,7 @@ pub fn deviations(shape: &PcsShape, honest: &FriProofT, opened: &Opened, all_pos
                 let cols: Vec<usize> = if all_positions || ys.len() <= 2 { (0..ys.len()).collect() } else { vec![0, ys.len() - 1] };
                 for col in cols {
                     v.push(Dev::OpenedValue { round: ri, mat: mi, point: pi, col });
+                    v.push(Dev::ClaimOnly { round: ri, mat: mi, point: pi, col });
                 }
             }
         }
